@@ -106,7 +106,10 @@ SeqLocksOK(B, b, t, V) ==
          [] OTHER -> TRUE          \* "final" and "disabled" (bit 31) impose nothing
 
 \* ------------------------------------------------------------------ context-free and contextual block checks
-CheckBlockOK(txs) == \A i \in 1..Len(txs) : ~DupInputs(txs[i])
+\* CheckTransaction: no duplicate inputs; the EXACT total of the outputs is within the money range (a transaction may carry `bulk`
+\* extra outputs of 21M BTC each: two or more of them are over the limit whatever a 64-bit accumulator makes of the sum)
+Bulk(t) == IF "bulk" \in DOMAIN TxU[t] THEN TxU[t].bulk ELSE 0
+CheckBlockOK(txs) == \A i \in 1..Len(txs) : ~DupInputs(txs[i]) /\ Bulk(txs[i]) < 2
 ContextualOK(B, b) == \A i \in 1..Len(B[b].txs) : IsFinal(B, b, B[b].txs[i])
 
 \* ------------------------------------------------------------------ ConnectBlock on view V
@@ -194,7 +197,9 @@ Mine(p, txs, cb, dt) ==
      IN /\ n' = b /\ blk' = B2
         /\ IF ~CheckBlockOK(txs)
            THEN \* CheckBlock fails: the block is not stored and no index entry is created
-                /\ UNCHANGED node /\ lastRes' = <<"bad-txns-inputs-duplicate">>
+                /\ UNCHANGED node
+                /\ lastRes' = IF \E i \in 1..Len(txs) : Bulk(txs[i]) >= 2 /\ \A j \in 1..(i-1) : ~DupInputs(txs[j])
+                              THEN <<"bad-txns-txouttotal-toolarge">> ELSE <<"bad-txns-inputs-duplicate">>
            ELSE IF ~ContextualOK(B2, b)
            THEN \* ContextualCheckBlock fails: index entry marked failed, no data
                 /\ failed' = failed \cup {b} /\ UNCHANGED <<stored, tip, utxo, undo>> /\ lastRes' = <<"bad-txns-nonfinal">>
